@@ -97,7 +97,8 @@ def gen_client_program(rng, builds, allow_uri=True, hostile=False):
             statics.append(("_HEADER", k + b": " + v))
         else:
             k = _text(rng, rng.randrange(1, 6)) + b"%d" % len(statics)
-            v = _text(rng, rng.randrange(1, 8)) if not hostile else bytes(rng.choice(PRINTABLE.replace(b"=", b"")) for _ in range(rng.randrange(1, 8)))
+            # values may contain '=' (e.g. base64 padding, "oe=ISO-8859-1"); names may not
+            v = _text(rng, rng.randrange(1, 8)) + rng.choice([b"", b"", b"==", b"=a=b"]) if not hostile else bytes(rng.choice(PRINTABLE) for _ in range(rng.randrange(1, 8)))
             statics.append(("_PARAMETER", k + b"=" + v))
     rng.shuffle(statics)
     cut = rng.randrange(0, len(statics) + 1)
